@@ -634,8 +634,8 @@ def single_problems(b, path):
     return False
 
 
-def prepare_family(ck, b, name, fn, k, root):
-    libs = fn(k)
+def prepare_family(ck, b, name, fn, k, root, libs=None, subsets=None):
+    libs = libs if libs is not None else fn(k)
     dbs = lib_c13.build_family(b, root, name, libs)
     tags = [L.tag for L in libs]
     exe = _CTX["_exe"]
@@ -696,10 +696,11 @@ def prepare_family(ck, b, name, fn, k, root):
     for c in singles.values():
         cov |= field_coverage(c)
     # build every model / battery now so that forked workers inherit them
-    for n in range(1, len(tags) + 1):
-        for sub in itertools.combinations(tags, n):
-            model_for(name, sub)
-            battery(name, sub)
+    if subsets is None:
+        subsets = [sub for n in range(1, len(tags) + 1) for sub in itertools.combinations(tags, n)]
+    for sub in subsets:
+        model_for(name, sub)
+        battery(name, sub)
     return tags, cov, full
 
 
@@ -715,6 +716,115 @@ def enumerate_histories(fam, tags, maxn):
                             yield perm, kinds, placed
                     else:
                         yield perm, kinds, ()
+
+
+def explore(ck, name, histories):
+    """run the histories of one family; returns (cut by deadline?, canonical states, failing
+    histories not reported individually)."""
+    states_total = 0
+    suppressed = 0
+    groups = {}
+    for perm, kinds, placed in histories:
+        groups.setdefault((perm, kinds), []).append((perm, kinds, placed))
+    work = []
+    for key in sorted(groups, key=lambda pk: (len(pk[0]), pk)):
+        items = groups[key]
+        for i in range(0, len(items), 120):
+            work.append((name, items[i:i + 120]))
+    state_by_set = {}
+    nviol = 0
+    cut = False
+    for i in range(0, len(work), 128):
+        if ck.expired(reserve=30):
+            ck.cap("deadline inside family %s after %d of %d chunks" % (name, i, len(work)))
+            cut = True
+            break
+        for res in pmap_proc(chunk_worker, work[i:i + 128]):
+            for perm, kinds, placed, problems, info in res:
+                key = history_key(name, perm, kinds, placed)
+                m = model_for(name, perm)
+                nontrivial = len(perm) >= 2 and m.shared >= 1
+                merge = "none" if len(perm) < 2 else (
+                    "content-choice" if m.content_choice else
+                    ("owner-choice" if m.ambiguous else "determined"))
+                outcome = "n=%d kinds=%s gap-queries=%s merge=%s" % (
+                    len(perm), "".join(sorted(set(kinds))), info.get("gap") or "-", merge)
+                if name.startswith("rec-"):
+                    outcome = "records " + outcome
+                if problems:
+                    outcome = "FAIL " + outcome
+                ck.note(key, nontrivial=nontrivial, outcome=outcome, family=name,
+                        sample={"family": name, "perm": list(perm), "kinds": list(kinds),
+                                "queries": [[g, sym_arg(s)] for g, s in placed],
+                                "state": info.get("state"), "winners": info.get("winners")})
+                if "state" in info:
+                    state_by_set.setdefault(tuple(sorted(perm)), set()).add(info["state"])
+                if problems:
+                    nviol += 1
+                    if nviol <= 6:
+                        report(ck, name, perm, kinds, placed, problems)
+                    else:
+                        suppressed += 1
+    # (ii) differential: one canonical state per loaded set
+    for sset, hs in sorted(state_by_set.items()):
+        states_total += len(hs)
+        if len(hs) != 1 and nviol == 0:
+            ck.fail("%s/%s/differential" % (name, "".join(sset)),
+                    "histories over the same set reach %d different canonical states" % len(hs),
+                    {"observed": "states=%d" % len(hs), "states": sorted(hs)})
+    return cut, states_total, suppressed
+
+
+def record_histories(kind, thorough):
+    """the per-type record alphabet: every assignment of a record state to the three
+    libraries x every load order x no query / one query in a gap between two loads."""
+    name = "rec-" + kind
+    shared = lib_c13.REC_SHARED[kind]
+    states = lib_c13.REC_STATES[kind]
+    syms = [("counts",), ("q", "ttn", shared), ("q", "tn", shared)]
+    for assign in itertools.product(states, repeat=3):
+        tags = [lib_c13.rec_tag(x, kind, st) for x, st in zip("abc", assign)]
+        for n in (2, 3):
+            for sub in itertools.combinations(tags, n):
+                for perm in itertools.permutations(sub):
+                    for kinds in (("d",) * n, ("m",) * n) if thorough else (("d",) * n,):
+                        yield perm, kinds, ()
+                        for g in range(0 if thorough else 1, n + (1 if thorough else 0)):
+                            for sy in syms:
+                                yield perm, kinds, ((g, sy),)
+
+
+def record_alphabet(ck, brel, b, root, thorough):
+    cut = False
+    nst = nsup = 0
+    for kind in ("enum", "class"):
+        name = "rec-" + kind
+        libs = lib_c13.fam_records(kind)
+        hist = sorted(set(record_histories(kind, thorough)))
+        subsets = set()
+        for perm, _, _ in hist:
+            for i in range(1, len(perm) + 1):
+                subsets.add(tuple(sorted(perm[:i])))
+        prep = prepare_family(ck, brel, name, None, 3, root, libs=libs, subsets=sorted(subsets))
+        if prep is None:
+            continue
+        # the realised record of every library must be the intended alphabet symbol
+        for L in libs:
+            st = lib_c13.REC_STATES[kind][int(L.tag[1:])]
+            r = _CTX[name]["singles"][L.tag].rec["T"].get("T:" + lib_c13.REC_SHARED[kind])
+            have = "absent" if r is None else ("G" if r["flags"] & F_GLOBAL else "-") + ("F" if r["flags"] & F_FULLY else "-")
+            listed = ("T:" + lib_c13.REC_SHARED[kind]) in _CTX[name]["singles"][L.tag].lists["global_types"]
+            if have != st or (r is not None and listed != bool(r["flags"] & F_GLOBAL)):
+                raise HarnessError("record alphabet: library %s/%s realises %s (listed global: %s), intended %s"
+                                   % (name, L.tag, have, listed, st))
+        _CTX[name]["b"] = b
+        c, a, s2 = explore(ck, name, hist)
+        nst += a
+        nsup += s2
+        if c:
+            cut = True
+            break
+    return cut, nst, nsup
 
 
 def main():
@@ -754,57 +864,21 @@ def main():
         if full.shared < 1:
             raise HarnessError("family %s: no shared type would be merged" % name)
         error_histories(ck, name, tags, root)
-        # chunk per (perm, kinds) so the per-process state cache hits
-        groups = {}
-        for perm, kinds, placed in enumerate_histories(name, tags, k):
-            groups.setdefault((perm, kinds), []).append((perm, kinds, placed))
-        work = []
-        for key in sorted(groups, key=lambda pk: (len(pk[0]), pk)):
-            items = groups[key]
-            for i in range(0, len(items), 120):
-                work.append((name, items[i:i + 120]))
-        state_by_set = {}
-        nviol = 0
-        cut = False
-        for i in range(0, len(work), 128):
-            if ck.expired(reserve=30):
-                ck.cap("deadline inside family %s after %d of %d chunks" % (name, i, len(work)))
-                cut = True
-                break
-            for res in pmap_proc(chunk_worker, work[i:i + 128]):
-                for perm, kinds, placed, problems, info in res:
-                    key = history_key(name, perm, kinds, placed)
-                    m = model_for(name, perm)
-                    nontrivial = len(perm) >= 2 and m.shared >= 1
-                    merge = "none" if len(perm) < 2 else (
-                        "content-choice" if m.content_choice else
-                        ("owner-choice" if m.ambiguous else "determined"))
-                    outcome = "n=%d kinds=%s gap-queries=%s merge=%s" % (
-                        len(perm), "".join(sorted(set(kinds))), info.get("gap") or "-", merge)
-                    if problems:
-                        outcome = "FAIL " + outcome
-                    ck.note(key, nontrivial=nontrivial, outcome=outcome, family=name,
-                            sample={"family": name, "perm": list(perm), "kinds": list(kinds),
-                                    "queries": [[g, sym_arg(s)] for g, s in placed],
-                                    "state": info.get("state"), "winners": info.get("winners")})
-                    if "state" in info:
-                        state_by_set.setdefault(tuple(sorted(perm)), set()).add(info["state"])
-                    if problems:
-                        nviol += 1
-                        if nviol <= 6:
-                            report(ck, name, perm, kinds, placed, problems)
-                        else:
-                            suppressed += 1
-        # (ii) differential: one canonical state per loaded set
-        for sset, hs in sorted(state_by_set.items()):
-            states_total += len(hs)
-            if len(hs) != 1 and nviol == 0:
-                ck.fail("%s/%s/differential" % (name, "".join(sset)),
-                        "histories over the same set reach %d different canonical states" % len(hs),
-                        {"observed": "states=%d" % len(hs), "states": sorted(hs)})
+        cut, nst, nsup = explore(ck, name, enumerate_histories(name, tags, k))
+        states_total += nst
+        suppressed += nsup
         if cut:
             break
         done.append(name)
+    if not ck.only or "records" in ck.only:
+        if ck.expired(reserve=60):
+            ck.cap("deadline before the record alphabet")
+        else:
+            cut, nst, nsup = record_alphabet(ck, brel, b, root, thorough)
+            states_total += nst
+            suppressed += nsup
+            if not cut:
+                done.append("records")
     missing = ALL_FIELDS - coverage
     ck.extra["index_fields_populated"] = sorted(coverage)
     ck.extra["index_fields_never_populated"] = sorted(missing)
@@ -939,6 +1013,21 @@ def replay(ck, brel, b, root):
     rp = ck.load_replay()
     d = rp["detail"]
     fam = d["family"]
+    if fam.startswith("rec-"):
+        perm = tuple(d["perm"])
+        subs = sorted({tuple(sorted(perm[:i])) for i in range(1, len(perm) + 1)})
+        if prepare_family(ck, brel, fam, None, 3, root, libs=lib_c13.fam_records(fam[4:]), subsets=subs) is None:
+            ck.cleanup()
+            return 1
+        _CTX[fam]["b"] = b
+        placed = tuple((g, tuple(s)) for g, s in d.get("queries", []))
+        problems, info = run_history(fam, perm, tuple(d["kinds"]), placed, timeout=600)
+        print("case:", rp["key"])
+        print("observed:", info)
+        for p_ in problems:
+            print("problem:", p_)
+        ck.cleanup()
+        return 1 if problems else 0
     fn = dict(lib_c13.FAMILIES)[fam]
     k = 4 if d.get("tier") == "thorough" else 3
     if d.get("tier") == "thorough" and b["flavour"] != "asan":
